@@ -1,7 +1,8 @@
 (* C04 -- window functions see exactly the documented segment and keep row count.
    Statements only; proofs are in Proofs/FrameProofs.v and Proofs/WindowProofs.v.
    Layers:
-   (a) the `window` transform: rows / range / rolling / expanding -> (kind, start, end)   (Model/Frame.v frame_of)
+   (a) the `window` transform: rows / range / rolling / expanding -> (kind, start, end) or the empty-range
+       error (Model/Frame.v frame_of); the partition / frame scoping of nested group / window bodies (scope_run)
    (b) the frame clause the back end emits, with default-frame elision and the bound sign rule, against
        SQL's own meaning of a frame clause INCLUDING the implicit frame of an OVER without one
        (sql_frame_segment), compared with the documented segment (Rel.v `seg`): frame_emit_sound
@@ -28,36 +29,75 @@ Proof. exact expanding_is_rows. Qed.
 Print Assumptions c04_expanding_is_rows.
 
 Theorem c04_rows_range_as_written : forall a b, range_is_empty (a, b) = false ->
-  frame_of (args_rows a b) = (KRows, a, b) /\ frame_of (args_range a b) = (KRange, a, b).
+  frame_of (args_rows a b) = WFrame (KRows, a, b) /\ frame_of (args_range a b) = WFrame (KRange, a, b).
 Proof. intros a b H. split; [apply rows_nonempty | apply range_nonempty]; exact H. Qed.
 Print Assumptions c04_rows_range_as_written.
 
 (* no window = the whole partition *)
 Theorem c04_no_window_is_whole_partition :
-  frame_of no_args = no_window /\ forall keys p i, prql_segment no_window keys p i = seg FNone keys p i.
+  frame_of no_args = WFrame no_window /\ forall keys p i, prql_segment no_window keys p i = seg FNone keys p i.
 Proof. split; [exact no_window_args_whole_partition | exact no_window_segment]. Qed.
 Print Assumptions c04_no_window_is_whole_partition.
 
-(* modelled behaviour the book does not define: a range whose start is after its end, and rolling:n with
-   n <= 0, are silently ignored (whole partition) *)
-Theorem c04_empty_range_is_whole_partition : forall a b, range_is_empty (a, b) = true ->
-  frame_of (args_rows a b) = no_window /\ frame_of (args_range a b) = no_window.
-Proof. exact empty_range_is_whole_partition. Qed.
-Print Assumptions c04_empty_range_is_whole_partition.
+(* /repo 7b31f75 (finding F52, fixed): a rows / range argument whose start is after its end -- an empty range --
+   is a compile error, whatever the other arguments say; it used to be taken for "argument not given" (whole
+   partition).  The one exception is the spelling of the std.prql default itself, 0..-1 (below). *)
+Theorem c04_empty_range_rejected : forall a b, range_is_empty (a, b) = true -> (a, b) <> not_given ->
+  frame_of (args_rows a b) = WEmptyRange ARows /\ frame_of (args_range a b) = WEmptyRange ARange.
+Proof. exact empty_range_rejected. Qed.
+Print Assumptions c04_empty_range_rejected.
 
-(* FULL STATEMENT (false, F52):  forall a b keys p i, prql_segment (frame_of (args_rows a b)) keys p i = seg (FRows a b) keys p i
-   -- it holds for non-empty ranges (c04_rows_range_as_written); for an empty one the book's segment is empty *)
-Theorem c04_empty_range_refuted : exists a b keys p i,
-  range_is_empty (a, b) = true /\ prql_segment (frame_of (args_rows a b)) keys p i <> seg (FRows a b) keys p i.
+Theorem c04_rejection_ignores_other_arguments : forall a : wargs,
+  (exists x, frame_of a = WEmptyRange x) <->
+  rejected_range (match w_rows a with Some r => r | None => default_rows end) = true \/
+  rejected_range (match w_range a with Some r => r | None => default_range end) = true.
+Proof. exact frame_of_rejects_iff. Qed.
+Print Assumptions c04_rejection_ignores_other_arguments.
+
+(* FULL STATEMENT (false, F54):
+     forall a b f keys p i, frame_of (args_rows a b) = WFrame f -> prql_segment f keys p i = seg (FRows a b) keys p i
+   (an accepted `rows:a..b` means the inclusive range a..b) -- it holds for every accepted argument except the
+   spelling 0..-1, which the transform cannot tell from "argument not given": whole partition instead of the
+   empty segment *)
+Theorem c04_accepted_range_as_written_partial : forall a b f, (a, b) <> not_given ->
+  (frame_of (args_rows a b) = WFrame f -> f = (KRows, a, b) /\ forall keys p i, prql_segment f keys p i = seg (FRows a b) keys p i) /\
+  (frame_of (args_range a b) = WFrame f -> f = (KRange, a, b) /\ forall keys p i, prql_segment f keys p i = seg (FRange a b) keys p i).
 Proof.
-  exists (Some 1), (Some 0), w_keys, w_part, 0%nat. destruct empty_range_witness as [A [B C]].
+  intros a b f N. split; intro H.
+  - rewrite (rows_as_written_partial a b f N H). split; reflexivity.
+  - rewrite (range_as_written_partial a b f N H). split; reflexivity.
+Qed.
+Print Assumptions c04_accepted_range_as_written_partial.
+
+Theorem c04_accepted_range_as_written_refuted : exists a b f keys p i,
+  frame_of (args_rows a b) = WFrame f /\ prql_segment f keys p i <> seg (FRows a b) keys p i.
+Proof.
+  exists (Some 0), (Some (-1)), no_window, w_keys, w_part, 0%nat. destruct explicit_default_witness as [A [B C]].
   split; [exact A|]. rewrite B, C. discriminate.
 Qed.
-Print Assumptions c04_empty_range_refuted.
+Print Assumptions c04_accepted_range_as_written_refuted.
 
+(* modelled behaviour the book does not define: rolling:n with n <= 0 is silently ignored (whole partition) *)
 Theorem c04_rolling_nonpositive_ignored : forall n, n <= 0 -> frame_of (args_rolling n) = frame_of no_args.
 Proof. exact rolling_nonpositive_ignored. Qed.
 Print Assumptions c04_rolling_nonpositive_ignored.
+
+(* /repo 222f71a: on the i64 domain neither mirror leaves its machine type: `-rolling + 1` is evaluated for
+   rolling > 0 only, the distance of a PRECEDING bound is |z| as u64 (i64::MIN included) *)
+Theorem c04_frame_arithmetic_in_range :
+  (forall rolling, in_i64 rolling -> 0 < rolling -> in_i64 (- rolling) /\ in_i64 (- rolling + 1)) /\
+  (forall z, in_i64 z -> 0 <= bound_distance (parse_bound z) <= u64_max /\ (i64_min < z -> in_i64 (bound_distance (parse_bound z)))).
+Proof. exact frame_arith_in_range. Qed.
+Print Assumptions c04_frame_arithmetic_in_range.
+
+(* /repo 592b6f8: the Flattener's bookkeeping of `partition` and `window` (save, overwrite for the body, write
+   back) is lexical scoping: every column definition is handed the key of the innermost enclosing group and the
+   frame of the innermost enclosing window -- also behind a nested group / window --, a relational argument
+   (join / append / loop) starts with neither, and the walk leaves the fields as it found them *)
+Theorem c04_scope_is_lexical : forall l st,
+  scope_run flatten_policy l st = (scope_spec (st_part st) (st_win st) l, st).
+Proof. exact scope_sound. Qed.
+Print Assumptions c04_scope_is_lexical.
 
 (* ---------------------------------------------------------------- (b) the emitted frame *)
 (* negative = PRECEDING, 0 = CURRENT ROW, positive = FOLLOWING; the distance is kept *)
@@ -135,14 +175,31 @@ Theorem c04_gen_window_defaults :
 Proof. vm_compute. reflexivity. Qed.
 Print Assumptions c04_gen_window_defaults.
 
-(* transforms.rs: the decision chain of `window` is the modelled frame_of (rolling off by one, a swapped
-   branch, a changed emptiness test all show up here) *)
+(* transforms.rs: the rejection loop and the decision chain of `window` are the modelled frame_of (rolling off
+   by one, a swapped branch, a changed emptiness test, a dropped / reordered / widened rejection all show up here) *)
 Theorem c04_gen_frame_of_agrees :
   forallb (fun rows => forallb (fun range_ => forallb (fun expanding => forallb (fun rolling =>
-     frame3_eqb (code_frame_of rows range_ expanding rolling) (frame_of (mk_wargs (Some rows) (Some range_) (Some expanding) (Some rolling))))
+     wresult_eqb (code_frame_of rows range_ expanding rolling) (frame_of (mk_wargs (Some rows) (Some range_) (Some expanding) (Some rolling))))
      small_rollings) [true; false]) small_ranges) small_ranges = true.
 Proof. vm_compute. reflexivity. Qed.
 Print Assumptions c04_gen_frame_of_agrees.
+
+(* the spelling transforms.rs exempts from the rejection IS the default std.prql gives `rows` and `range` (were
+   they to drift apart, "argument not given" would be rejected, or an empty range accepted again) *)
+Theorem c04_gen_not_given_is_default :
+  match code_not_given with
+  | Some d => bounds_eqb d not_given && bounds_eqb d window_default_rows && bounds_eqb d window_default_range
+  | None => false
+  end = true.
+Proof. vm_compute. reflexivity. Qed.
+Print Assumptions c04_gen_not_given_is_default.
+
+(* flatten.rs: group / window bodies write the enclosing partition / frame back, relational arguments are
+   isolated from both (the policy c04_scope_is_lexical is about); an ungrouped aggregate ends the sort in effect *)
+Theorem c04_gen_scope_policy :
+  scope_policy_eqb code_scope_policy flatten_policy && code_aggregate_ends_sort = true.
+Proof. vm_compute. reflexivity. Qed.
+Print Assumptions c04_gen_scope_policy.
 
 (* gen_expr.rs: elision condition, default frame, bound arms, unbounded bounds = the modelled emit_frame *)
 Theorem c04_gen_emit_frame_agrees :
@@ -150,6 +207,12 @@ Theorem c04_gen_emit_frame_agrees :
      osframe_eqb (code_emit_frame supports sorted f) (emit_frame supports sorted f)) small_frames) [true; false]) [true; false] = true.
 Proof. vm_compute. reflexivity. Qed.
 Print Assumptions c04_gen_emit_frame_agrees.
+
+(* gen_expr.rs (222f71a): no bound arm negates an i64 (the premise under which c04_frame_arithmetic_in_range speaks
+   about the code and not only about the model's unbounded integers) *)
+Theorem c04_gen_bound_distance_total : code_bound_distance_total = true.
+Proof. vm_compute. reflexivity. Qed.
+Print Assumptions c04_gen_bound_distance_total.
 
 Theorem c04_gen_elided_frame_is_implicit :
   sframe_eqb (code_to_sframe (code_default_frame true)) (sql_implicit_frame true)
@@ -262,8 +325,22 @@ Proof. exists w_key. split; [reflexivity|]. intros r [H|[H|[H|[]]]]; subst; eexi
 Example c04_ex_range_frame : prql_segment (KRange, Some (-1), Some 0) w_keys w_part 2 = [1; 2]%nat
   /\ sql_frame_segment (emit_frame true true (KRange, Some (-1), Some 0)) w_keys w_part 2 = [1; 2]%nat.
 Proof. split; vm_compute; reflexivity. Qed.
-Example c04_ex_rolling : frame_of (args_rolling 3) = (KRows, Some (-2), Some 0).
+Example c04_ex_rolling : frame_of (args_rolling 3) = WFrame (KRows, Some (-2), Some 0).
 Proof. reflexivity. Qed.
+Example c04_ex_rejected : frame_of (args_rows (Some 1) (Some 0)) = WEmptyRange ARows
+  /\ frame_of (mk_wargs (Some (Some 1, Some 0)) None (Some true) None) = WEmptyRange ARows
+  /\ frame_of (mk_wargs (Some (Some (-1), Some 1)) (Some (Some 2, Some 0)) None None) = WEmptyRange ARange
+  /\ frame_of (args_rows (Some 0) (Some (-1))) = WFrame no_window.
+Proof. repeat split; reflexivity. Qed.
+(* the scoping theorem is not vacuous: the bookkeeping of the tree before 592b6f8 (reset instead of write back)
+   hands x3, x4 of  group g (window rows:-1..0 (x1 | group c (x2) | x3) | x4) | x5  no partition / x4 no frame *)
+Example c04_ex_scope_old_policy_differs :
+  fst (scope_run old_flatten_policy scope_example fstate0) <> scope_spec None no_window scope_example.
+Proof. exact scope_old_policy_differs. Qed.
+Example c04_ex_scope : scope_spec None no_window scope_example =
+  [(1%N, Some 0%N, (KRows, Some (-1), Some 0)); (2%N, Some 1%N, (KRows, Some (-1), Some 0)); (3%N, Some 0%N, (KRows, Some (-1), Some 0));
+   (4%N, Some 0%N, no_window); (5%N, None, no_window)].
+Proof. vm_compute. reflexivity. Qed.
 Example c04_ex_known : known_f22 false true no_window = true /\ known_f22 false false no_window = false /\ known_f22 true true no_window = false.
 Proof. repeat split; reflexivity. Qed.
 Example c04_ex_not_keys : cols_not_keys [5%N] [(Some 9%N, WRankDense, ECol None 2%N)].
